@@ -120,6 +120,8 @@ type Frag struct {
 	Type    codec.Command
 	Ok      bool // for mset
 	Done    bool // is the current frag completed
+
+	Redirects int // number of MOVED/ASK redirects followed so far
 }
 
 func (f *Frag) MsgId() uint64 {
